@@ -118,6 +118,7 @@ type hist = {
   mutable feat : string list;
   mutable sig_ : Buffer.t;
   mutable tw_sizes : n list;               (* sizes of pending try_with slots *)
+  mutable tw_slots : (n * n) list;         (* implementation side: (address, size) of pending slots *)
   mutable dead : bool;
 }
 
@@ -137,8 +138,10 @@ let new_hist (line : string) : hist =
   let nth i = List.nth c i in
   let k = { k_footer = nth 0; k_calign = nth 2; k_overhead = nth 3; k_default = nth 4;
             k_page = nth 5; k_malign = n_of_string (get "malign"); k_eaddr = n_of_string (get "eaddr") } in
+  if not (cfg_okb k) then
+    report_spec ~prop:"C04" ~pred:"cfg_ok" ~detail:("the_static_EMPTY_CHUNK_or_the_constants_do_not_meet_cfg_ok:eaddr=" ^ get "eaddr" ^ "_malign=" ^ get "malign");
   { k; b = fresh; held = []; live = []; p_ab = N0; p_abim = N0; p_cap = N0; p_chunks = [];
-    feat = []; sig_ = Buffer.create 256; tw_sizes = []; dead = false }
+    feat = []; sig_ = Buffer.create 256; tw_sizes = []; tw_slots = []; dead = false }
 
 let lay s a = { l_size = n_of_string s; l_align = n_of_string a }
 
@@ -253,7 +256,7 @@ let handle_op (h : hist) (line : string) =
     if b1.limit <> o.ilimit && kind <> "drop" then
       report_mismatch ~who:"follow" ~field:"limit" ~model:"?" ~impl:"?";
     List.iter (fun f -> report_mismatch ~who:"follow" ~field:("flag" ^ string_of_n f) ~model:"flag" ~impl:"-")
-      (List.filter (fun f -> not (neq f fLAG_LIMIT_EXCEEDED)) out.o_flags);
+      (List.filter (fun f -> neq f fLAG_LIMIT_EXCEEDED) out.o_flags);
     (* ----- policy comparison: requests and outcome predicted from answers only ----- *)
     if outp.o_reqs <> ireqs then
       report_mismatch ~who:"policy" ~field:"reqs" ~model:(show_list show_pair outp.o_reqs) ~impl:(show_list show_pair ireqs)
@@ -263,6 +266,10 @@ let handle_op (h : hist) (line : string) =
     (* C09 / C19: a fallible call never panics; an infallible one panics only with oom *)
     if impl_panic && (mi.fallible || not impl_oom) then
       report_spec ~prop:"C09" ~pred:"no_panic" ~detail:ires;
+    (* C11: after a failed initialiser that allocated nothing, the same layout is served
+       from the space that was reserved for it: no request to the global allocator *)
+    if kind = "alloc" && List.mem "probe_c11" args && (o.reqs <> [] || not impl_ok) then
+      report_spec ~prop:"C11" ~pred:"slot_reusable_without_request" ~detail:(ires ^ "_reqs=" ^ string_of_int (List.length o.reqs));
     (* C07: chunks obtained under a limit *)
     let lim_before = b0.limit in
     let ab_run = ref h.p_ab in
@@ -304,7 +311,7 @@ let handle_op (h : hist) (line : string) =
         report_spec ~prop:"C09" ~pred:"err_changes_nothing" ~detail:ires
     end;
     (* liveness bookkeeping + C01 / C04 on every block handed out *)
-    if kind = "reset" || kind = "drop" then h.live <- [];
+    if kind = "reset" || kind = "drop" then (h.live <- []; h.tw_slots <- []; h.tw_sizes <- []);
     (match kind with
      | "dealloc" -> (match mi.dies with Some d -> h.live <- remove_live d h.live | None -> ())
      | "twbegin" -> if impl_ok then h.tw_sizes <- (match mi.mop with OTwBegin l -> l.l_size | _ -> N0) :: h.tw_sizes
@@ -320,12 +327,19 @@ let handle_op (h : hist) (line : string) =
        check_block p size align;
        h.live <- (p, size) :: h.live
      | "twbegin", Some p, _ ->
-       (match mi.mop with OTwBegin l -> check_block p l.l_size l.l_align | _ -> ())
+       (match mi.mop with
+        | OTwBegin l ->
+          check_block p l.l_size l.l_align;
+          (* the reserved slot is off limits for every other block from now on *)
+          h.live <- (p, l.l_size) :: h.live;
+          h.tw_slots <- (p, l.l_size) :: h.tw_slots
+        | _ -> ())
      | "twend", _, _ ->
-       (match h.tw_sizes, b0.tws with
-        | sz :: rest, t :: _ ->
-          h.tw_sizes <- rest;
-          if impl_ok then h.live <- (t.tw_res, sz) :: h.live
+       (match h.tw_sizes, h.tw_slots with
+        | _ :: rest, slot :: srest ->
+          h.tw_sizes <- rest; h.tw_slots <- srest;
+          (* on Err the slot goes away; on Ok it stays the client's *)
+          if not impl_ok then h.live <- remove_live slot h.live
         | _ -> ())
      | _ -> ());
     (* C10: chunk iteration *)
@@ -366,6 +380,20 @@ let () =
          | 'K' -> report_spec ~prop:(if (try ignore (Str.search_forward (Str.regexp "call order\\|try_fill result") line 0); true with Not_found -> false) then "C02" else "C11")
                     ~pred:"driver_check" ~detail:(String.map (fun c -> if c = ' ' then '_' else c) line)
          | 'X' -> report_spec ~prop:"C09" ~pred:"terminates" ~detail:(match !pending with Some p -> String.map (fun c -> if c = ' ' then '_' else c) p | None -> "?")
+         | 'T' ->
+           (* constructor with a given MIN_ALIGN: panics iff the model's ctor_ok is false, and then asks for no memory *)
+           let kv = kv_of line in
+           let get x = List.assoc x kv in
+           let c = List.map n_of_string (split_on ',' (get "consts")) in
+           let nth i = List.nth c i in
+           let k = { k_footer = nth 0; k_calign = nth 2; k_overhead = nth 3; k_default = nth 4;
+                     k_page = nth 5; k_malign = n_of_string (get "malign"); k_eaddr = n_of_int 4096 } in
+           hid := "ctor"; opno := 0; cur_desc := line; header := "";
+           bump_count "ctor_tests";
+           let panicked = (get "res" = "panic:minalign") in
+           let other = (get "res" <> "ok" && not panicked) in
+           if other || panicked = ctor_ok k || (panicked && get "reqs" <> "0") then
+             report_spec ~prop:"C04" ~pred:("ctor_refuses_" ^ get "malign" ^ "_" ^ get "how") ~detail:(get "res" ^ "_reqs=" ^ get "reqs")
          | 'E' -> (match !cur with Some h -> finish_hist h | None -> ()); cur := None; pending := None
          | _ -> ()
      done
